@@ -9,6 +9,14 @@ ALL = ["C%02d" % i for i in range(1, 21)]
 
 # id -> dict(level, technique, text, note, design_ref, engine)
 CHECKS = {
+    "C14": dict(
+        level="exploration",
+        engine="E1-enum",
+        technique="bounded-exhaustive enumeration of failing templates (every truncation point and stray-token insertion of a corpus; run-time faults x construct placements) x vertical/horizontal offsets, with a metamorphic shift oracle",
+        text="Syntax errors are produced by truncating every template of a corpus (29 hand-written templates covering every tag and literal form plus generator programs) at every character boundary, with and without multi-byte text in front, and by inserting 12 stray tokens at the boundaries, plus 37 classic faults; run-time errors by planting 21 failing constructs into 18 placements (loops, branches, with, macros, call blocks, set/filter blocks, child/parent blocks, super, includes, imports, recursive loops, three-level inheritance) whose expected template and line are computed from the placement. Every failing case is re-run with 1/17/(65535-len) filler lines above it (LF and CRLF) and with 3-byte, multi-byte and 70 000-byte prefixes. Oracle: the error and every located cause name a template and a line inside it; kind/detail/name are unchanged and lines move by exactly N; ranges are in bounds, on char boundaries of template_source(), equal to the named template and move by the inserted byte count; Display, alternate, Debug, pretty Debug and display_debug_info never panic or return fmt::Error.",
+        note="Strict undefined mode. Cases that do not fail are skipped and counted. Templates beyond 65 535 lines are outside the property (u16 line counter).",
+        design_ref="2/C14",
+    ),
     "C18": dict(
         level="exploration",
         engine="E1-enum",
